@@ -186,7 +186,13 @@ Fixpoint p07_all (restarted : bool) (acts es : list sx) : sx :=
             | _ => bad "send-still-blocked-after-reliable-network"
             end
           else if is_sym "mdlv" t && negb restarted && negb (match r with SL [u; _] => is_sym "app" u | _ => false end)
-          then bad "data-not-delivered-after-reliable-network"
+          then
+            (* name the state: the receiver holds no session at all (its side of the handshake expired
+               while the sender's completed: half-open) or something else *)
+            match entry_parts e with
+            | Some (_, [SN 0; SN 0; SN 0], _) => bad "data-sent-through-a-session-the-peer-no-longer-has"
+            | _ => bad "data-not-delivered-after-reliable-network"
+            end
           else p07_all (restarted || is_sym "restart" t) ta te
       | _ => p07_all restarted ta te
       end
